@@ -457,7 +457,8 @@ def run(ctx):
     blocks.generalized(ctx)
     from . import c10 as _c10
 
-    _c10.compat(ctx)  # (tools/wiring.py) grid-function and operator algebra compare spaces through their compatible representations
+    _c10.compat(ctx)
+    _c10.compat_use(ctx)  # (tools/wiring.py) grid-function and operator algebra compare spaces through their compatible representations
 
 
 def combinator_shapes(ctx):
